@@ -16,17 +16,17 @@ pub fn generate(tier: &str, rng: &mut Rng) -> Vec<Spec> {
     for kind in ["max", "min", "bounds"] {
         // fresh filters: all histories over {0,1,2}
         let l = if thorough { 8 } else { 6 };
-        for n in 1..=maxn { for xs in super::all_seqs(&abc, l) {
+        for n in 1..=maxn { for xs in crate::util::all_seqs(&abc, l) {
             if kind == "bounds" && xs[0] != 0 { continue; }
             v.push(Spec::new(kind).with("N", n).with("pre", "").with("xs", join(&xs))); } }
         // injected states: every prefix over {0,1,2} of length 0..=N (=> every well-formed deque over such a
         // window), clock at MAX-shift for shift in 0..=N+1, continuations long enough to pass the rebase and
         // then expire every entry. Quick: complete for N <= 2, every 8th case for N = 3; thorough: complete N <= 4.
         for n in 1..=(if thorough { 4 } else { 3 }) {
-            for plen in 0..=n.min(3) { for pre in super::all_seqs(&abc, plen) {
+            for plen in 0..=n.min(3) { for pre in crate::util::all_seqs(&abc, plen) {
                 for shift in 0..=(n + 1) {
                     let cl = if thorough { (n + 3).min(6) } else { [0, 4, 4, 5][n] };
-                    for xs in super::all_seqs(&abc, cl) {
+                    for xs in crate::util::all_seqs(&abc, cl) {
                         if kind == "bounds" && (xs[0] == 2) { continue; }
                         stride_ctr += 1;
                         if !thorough && n == 3 && stride_ctr % 8 != 0 { continue; }
